@@ -28,6 +28,7 @@ from __future__ import annotations
 
 import ast
 import contextlib
+import copy
 import dataclasses
 import datetime
 import operator
@@ -451,7 +452,6 @@ def load(val: _T) -> PythonValueT | _T:
     return strload(val) if inspection.istexttype(val.__class__) else val  # type: ignore[arg-type]
 
 
-@compat.lru_cache(maxsize=100_000)
 def strload(val: str | bytes | bytearray | memoryview) -> PythonValueT:
     """Attempt to decode a string-like input into a Python value.
 
@@ -463,10 +463,12 @@ def strload(val: str | bytes | bytearray | memoryview) -> PythonValueT:
         (1, 2)
         >>> serdes.strload(b'{"a": 1, "b": 2}')
         {'a': 1, 'b': 2}
+        >>> serdes.strload(bytearray(b"[1, 2]"))
+        [1, 2]
 
 
     Tip:
-        This function is memoized and only safe for text-type inputs.
+        The parse is memoized and only safe for text-type inputs.
 
     See Also:
          - [`load`][typelib.serdes.load]
@@ -474,6 +476,16 @@ def strload(val: str | bytes | bytearray | memoryview) -> PythonValueT:
     Args:
         val: The string-like input to be decoded.
     """
+    # The memo is keyed on the input, so it must be hashable:
+    #   normalize `bytearray` and `memoryview` (unhashable if writable) to `bytes`.
+    if isinstance(val, (bytearray, memoryview)):
+        val = bytes(val)
+    # Never hand out the memoized object itself - lists, dicts and sets are mutable.
+    return copy.deepcopy(_strload(val))
+
+
+@compat.lru_cache(maxsize=100_000)
+def _strload(val: str | bytes) -> PythonValueT:
     with contextlib.suppress(ValueError):
         return compat.json.loads(val)
 
